@@ -401,6 +401,14 @@ func runEncoder(r *Run, id, mode, corr string, p EncProfile, oracle func(EncRec,
 	for _, rec := range encCorpus(mode, p) {
 		encOne(r, id, rec, oracle, "corpus", runeSet)
 	}
+	withNastyPathMapping(func() { // the caller field under a path mapping whose replacement needs escaping
+		for i, rec := range encCorpus(mode, p) {
+			if i%7 == 0 {
+				rec.Cfg.Caller = true
+				encOne(r, id, rec, oracle, "corpus-caller-path", runeSet)
+			}
+		}
+	})
 	for i := r.N(quick, thorough); i > 0; i-- {
 		pp := p
 		if r.Thorough() && r.R.Chance(30) {
